@@ -6,10 +6,15 @@
    any calls SingleFlight.Do/DoEx [GSF], LockedCalls.Do [GLC], ResourceManager.GetResource
    [GRM] on any keys, any function results/errors) and an ARBITRARY schedule
    [sched : list nat] of atomic actions.  Since [sched] is arbitrary, "in exec scripts
-   sched" means "at every step of every interleaving".  User functions that panic are
-   outside the property's quantifier and outside the model. *)
+   sched" means "at every step of every interleaving".
+
+   User functions that PANIC (scripted as [oerr = epanic]) are inside the model although the
+   property's quantifier does not list them: the leader's call ends with [(vnil, epanic)], what is
+   shared with the waiters is [shared r] - the pair itself, or [(vnil, 0)] = (nil, nil) after a
+   panic, which assigned nothing.  For scripts without panics [fn_ret o = (oval o, oerr o)] and
+   [shared] is the identity ([Proofs.fn_ret_nopanic], [Proofs.shared_id]). *)
 From Coq Require Import List ZArith Bool Arith.
-From GZ Require Import Lib.Sched C07.Model C07.Proofs.
+From GZ Require Import Lib.Sched C07.Model C07.Proofs C07.ProofsB.
 Import ListNotations.
 
 (* At most one execution of the supplied function is in progress per key (and group), at
@@ -21,7 +26,7 @@ Print Assumptions one_execution_per_key.
 
 (* No stale result.  Every result [r] ever returned by SingleFlight.Do/DoEx or
    GetResource was read from a call object c = heap (rcid r) registered under the caller's
-   own key, is exactly the (val, err) that execution produced, and either
+   own key, is exactly the (val, err) that execution produced (up to [shared]: see above), and either
    - it is the caller's own execution (then, and only then, it is reported fresh; the
      execution's leading call IS the caller's call: same invocation and return time), or
    - the caller joined it at logical time [rjoin r], inside its own call interval
@@ -138,6 +143,67 @@ Theorem resource_created_once : forall scripts sched k,
 Proof. exact resource_created_once_l. Qed.
 Print Assumptions resource_created_once.
 
+(* The leader of an execution returns what its own function handed to it (SingleFlight and
+   LockedCalls); a SingleFlight call ends by a panic only for the leader whose own function
+   panicked; and every SingleFlight result is the shared outcome of the execution led by a caller
+   of the same key - exactly that leader's scripted (val, err) when its function does not panic. *)
+Theorem leader_returns_own_result : forall scripts sched t th r o,
+  let s := exec scripts sched in
+  nth_error (threads s) t = Some th -> In r (tres th) ->
+  nth_error (tscript th) (rop r) = Some o ->
+  (rfresh r = true -> ogrp o <> GRM -> (rval r, rerr r) = fn_ret o) /\
+  (ogrp o = GSF -> rerr r = epanic -> rfresh r = true).
+Proof. exact leader_returns_own_result_l. Qed.
+Print Assumptions leader_returns_own_result.
+
+Theorem singleflight_result_is_a_leaders : forall scripts sched t th r o,
+  let s := exec scripts sched in
+  nth_error (threads s) t = Some th -> In r (tres th) ->
+  nth_error (tscript th) (rop r) = Some o -> ogrp o = GSF ->
+  let c := heap s (rcid r) in
+  exists thL oL,
+    nth_error (threads s) (fst (clead c)) = Some thL /\
+    nth_error (tscript thL) (snd (clead c)) = Some oL /\
+    ogrp oL = GSF /\ okey oL = okey o /\
+    shared (rval r, rerr r) = shared (fn_ret oL) /\
+    (panics oL = false -> (rval r, rerr r) = (oval oL, oerr oL)).
+Proof. exact (fun scripts sched t th r o => sf_result_of_leader _ t th r o (exec_inv scripts sched)). Qed.
+Print Assumptions singleflight_result_is_a_leaders.
+
+(* Nobody is left hanging.  A thread that cannot move waits (on the WaitGroup of an object of its
+   own group and key) for an execution whose leader - another thread, working on the same key -
+   is alive and CAN move: no lost wake-up, and no waiter is ever left behind a call that will not
+   be completed, also when the leader's function panics (the clean-up is deferred).  Hence the
+   system never deadlocks: as long as some script is unfinished, some thread can move. *)
+Theorem blocked_waits_for_movable_leader : forall scripts sched t th o,
+  let s := exec scripts sched in
+  nth_error (threads s) t = Some th -> cur_op th = Some o -> enabled s t = false ->
+  exists c tL thL oL,
+    tpc th = PWait c /\ cgrp (heap s c) = ogrp o /\ ckey (heap s c) = okey o /\
+    tL = fst (clead (heap s c)) /\ tL <> t /\
+    nth_error (threads s) tL = Some thL /\ cur_op thL = Some oL /\
+    ogrp oL = ogrp o /\ okey oL = okey o /\ live_pc (tpc thL) c /\ enabled s tL = true.
+Proof. exact blocked_has_movable_leader_l. Qed.
+Print Assumptions blocked_waits_for_movable_leader.
+
+Theorem no_deadlock : forall scripts sched,
+  unfinished (exec scripts sched) = true -> can_move (exec scripts sched) = true.
+Proof. exact no_deadlock_l. Qed.
+Print Assumptions no_deadlock.
+
+(* What the controller of the correspondence check judges as "blk": at a gate-level quiescent
+   point (every thread parked in user code - in front of a call, inside its function / create -
+   or blocked or done) a blocked thread waits behind a function that is running for its own group
+   and key in another thread.  (Check.scan demands exactly this of the implementation.) *)
+Theorem quiescent_blocked_behind_running_function : forall scripts sched t th o,
+  let s := exec scripts sched in
+  quiescent s = true ->
+  nth_error (threads s) t = Some th -> cur_op th = Some o -> enabled s t = false ->
+  exists tL thL, tL <> t /\ nth_error (threads s) tL = Some thL /\
+                 in_fn (ogrp o) (okey o) thL = true.
+Proof. exact quiescent_blocked_l. Qed.
+Print Assumptions quiescent_blocked_behind_running_function.
+
 (* ------------------------------------------------------------------ *)
 (* non-vacuity: concrete interleavings in which the interesting things happen *)
 
@@ -172,3 +238,31 @@ Example ex_resource :
   (map (fun th => map (fun r => (rval r, rerr r)) (tres th)) (threads s), ncreated s 1, resources s 1)
   = ([[((-1)%Z, 5%Z)]; [(201%Z, 0%Z)]; [(201%Z, 0%Z)]], 1, Some 201%Z).
 Proof. vm_compute. reflexivity. Qed.
+
+(* a panicking leader: its call ends by the panic, the waiter is released with (nil, nil) and is
+   not fresh; LockedCalls: the waiter then runs its own function; GetResource: the waiter's type
+   assertion panics too, a later caller creates the resource *)
+Example ex_panic_singleflight :
+  map (fun th => map (fun r => (rval r, rerr r, rfresh r)) (tres th))
+      (threads (exec [[mkOp GSF 1 101 epanic]; [mkOp GSF 1 201 0]] [0;0;0; 1;1; 0;0;0; 1]))
+  = [[(vnil, epanic, true)]; [(vnil, 0%Z, false)]].
+Proof. vm_compute. reflexivity. Qed.
+
+Example ex_panic_locked :
+  map (fun th => map (fun r => (rval r, rerr r, rruns r)) (tres th))
+      (threads (exec [[mkOp GLC 1 101 epanic]; [mkOp GLC 1 201 0]] [0;0;0; 1;1; 0;0;0; 1;1;1;1;1;1;1]))
+  = [[(vnil, epanic, 1)]; [(201%Z, 0%Z, 1)]].
+Proof. vm_compute. reflexivity. Qed.
+
+Example ex_panic_resource :
+  let s := exec [[mkOp GRM 1 101 epanic]; [mkOp GRM 1 201 0]; [mkOp GRM 1 301 0]]
+                [0;0;0;0; 1;1; 0;0;0; 1; 2;2;2;2;2;2;2;2;2] in
+  (map (fun th => map (fun r => (rval r, rerr r)) (tres th)) (threads s), ncreated s 1)
+  = ([[(vnil, epanic)]; [(vnil, epanic)]; [(301%Z, 0%Z)]], 1).
+Proof. vm_compute. reflexivity. Qed.
+
+(* a quiescent state with a blocked thread (hypotheses of quiescent_blocked_behind_running_function) *)
+Example ex_quiescent_blocked :
+  let s := exec ex_scripts [0;0;0;1;1] in
+  quiescent s = true /\ enabled s 1 = false /\ unfinished s = true /\ can_move s = true.
+Proof. vm_compute. repeat split; reflexivity. Qed.
